@@ -35,6 +35,10 @@ CLAIMED["C12"] = ("DESIGN.md#c12", "Lean theorems: the nine units are WallUnits 
          "Lean 4 proof over zone-table + calendar model + differential correspondence run")
 CLAIMED["C08"] = ("DESIGN.md#c08", "Token alternation order, rule/regex key sets, the 30 _TOKENS_RULES lambdas, named formats, to_*_string bodies and per-locale name/ordinal tables are regenerated into Lean; theorems: one per token family against the calendar definitions (YYYY..SSSSSS, Z/ZZ for every whole-minute offset, X/x, Q, DDDD, E/d, A), literal text verbatim, named formats = documented compositions, from_format(format(dt)) = dt on the class of separator-delimited numeric formats (partial outside it), defaults from now, mismatch -> ValueError only, locale tables injective / round-trip for all 27 locales; correspondence 8x10^4 ops x 2 backends; oracle = strftime + integer arithmetic",
          "Lean 4 proof over regenerated formatter tables (Gen.Format*) + hand model tied by differential run")
+CLAIMED["C06"] = ("DESIGN.md#c06", "Lean theorems over models of both precise_diff backends (repaired) and add_duration, every year: canonical ranges, rebuild add(a, pd(a,b)) = b, reversed = negated, in_months, weeks/remaining_days, cross-zone pairs decomposed in UTC, backends agree on same-tzinfo pairs; correspondence 2.8x10^5 comparisons (direct helper calls + Interval), oracle = independent calendar add; known finding F23 (fold dropped for cross-zone endpoints in an overlap)",
+         "Lean 4 proof over precise_diff/add_duration models + differential correspondence run")
+CLAIMED["C19"] = ("DESIGN.md#c19", "Lean theorems about the range loop for any step/comparison: k-th value computed from the start (no drift), containment, strict monotonicity, stops at the last value not beyond the end, end yielded iff reachable, finite with an explicit bound, contains_iff; unconditional instantiation for naive values, partial for DST zones outside the known findings F15/F16 (Lean counterexamples); correspondence 8x10^4 comparisons, oracle = independent list of start.add(unit=k*n) cut by instants; F24 (range end at the representable limit)",
+         "Lean 4 proof over range-loop model + differential correspondence run")
 NA = {}
 def main():
     props = [json.loads(l) for l in open(os.path.join(ROOT, "properties.jsonl"))]
